@@ -1,9 +1,11 @@
 import AdfObdd.ParserProofs
 
 namespace ParserM
-/-! prototype 28: the formula grammar on char lists, structured like `parser.rs`, and its
-    completeness: every text of the documented formula syntax (any layout around commas,
-    alphanumeric labels incl. keyword-like ones) is parsed back to the formula that was written -/
+/-! the formula grammar on char lists, structured like `parser.rs` (`atomic` with both label
+    spellings, `constant`, the five binary connectives, `neg`, alt order as in the Rust), the
+    documented concrete syntax as an inductive relation, and completeness: every text of the
+    documented formula syntax (any layout around commas, alphanumeric labels incl. keyword-like
+    ones, quoted labels) is parsed back to the formula that was written -/
 
 inductive Fml where
   | top | bot
@@ -39,8 +41,22 @@ def negP (rec : Prs Fml) : Prs Fml := fun cs =>
   (tagL ['n','e','g'] cs).bind fun x0 => (tagL ['('] x0.2).bind fun x1 => (rec x1.2).bind fun a =>
   (tagL [')'] a.2).bind fun x3 => some (Fml.not a.1, x3.2)
 
-/-- only the alphanumeric alternative of `atomic` is needed for this prototype -/
-def atomP : Prs Fml := fun cs => (alnum1 cs).map fun x => (Fml.atom x.1, x.2)
+/-- `take_until("\"")`: everything before the first `"`; an error if there is none. The empty
+prefix is a success (`take_until`, not `take_until1`), so `""` is the empty label. -/
+def takeUntilQ : Prs (List Char)
+  | [] => none
+  | c :: cs => if c = '"' then some ([], c :: cs) else (takeUntilQ cs).map fun x => (c :: x.1, x.2)
+
+/-- `delimited(tag("\""), take_until("\""), tag("\""))` -/
+def quotedP : Prs (List Char) := fun cs =>
+  (tagL ['"'] cs).bind fun a => (takeUntilQ a.2).bind fun l => (tagL ['"'] l.2).bind fun b =>
+  some (l.1, b.2)
+
+/-- `atomic`: `alt((delimited(tag("\""), take_until("\""), tag("\"")), alphanumeric1))` -/
+def atomic : Prs (List Char) := orElse quotedP alnum1
+
+/-- `atomic_term` -/
+def atomP : Prs Fml := fun cs => (atomic cs).map fun x => (Fml.atom x.1, x.2)
 
 def binaryP (rec : Prs Fml) : Prs Fml :=
   orElse (pairP rec ['a','n','d'] Fml.and)
@@ -55,11 +71,18 @@ def formulaF : Nat → Prs Fml
 
 def AllWs (w : List Char) : Prop := ∀ c ∈ w, isWs c = true
 
+/-- the two spellings of a label: a non-empty alphanumeric word, written as it is, or any text
+without `"` (possibly empty, possibly with blanks, brackets, commas, dots, non-ASCII characters)
+between two `"`. The label is the word resp. the text between the quotes, verbatim. -/
+inductive DerL : List Char → List Char → Prop
+  | alnum (l : List Char) : l ≠ [] → AllAlnum l → DerL l l
+  | quoted (l : List Char) : '"' ∉ l → DerL l (['"'] ++ l ++ ['"'])
+
 /-- the documented concrete syntax of formulas -/
 inductive DerF : Fml → List Char → Prop
   | top : DerF Fml.top ['c','(','v',')']
   | bot : DerF Fml.bot ['c','(','f',')']
-  | atom (l : List Char) : l ≠ [] → AllAlnum l → DerF (Fml.atom l) l
+  | atom (l s : List Char) : DerL l s → DerF (Fml.atom l) s
   | not (f : Fml) (s : List Char) : DerF f s → DerF (Fml.not f) (['n','e','g','('] ++ s ++ [')'])
   | and (a b : Fml) (s1 s2 w1 w2 : List Char) : DerF a s1 → DerF b s2 → AllWs w1 → AllWs w2 →
       DerF (Fml.and a b) (['a','n','d','('] ++ s1 ++ w1 ++ [','] ++ w2 ++ s2 ++ [')'])
@@ -105,17 +128,20 @@ theorem DerF.head_not_ws {f : Fml} {s : List Char} (h : DerF f s) (r : List Char
     ∀ c, (s ++ r).head? = some c → isWs c = false := by
   intro c hc
   cases h with
-  | atom _ hne hl =>
-    cases s with
-    | nil => exact absurd rfl hne
-    | cons d l' =>
-      simp at hc; subst hc
-      have := hl d (List.mem_cons_self ..)
-      cases hw : isWs d with
-      | false => rfl
-      | true =>
-        simp [isWs] at hw
-        rcases hw with ((rfl | rfl) | rfl) | rfl <;> simp [isAlnum, Char.isAlphanum, Char.isAlpha, Char.isUpper, Char.isLower, Char.isDigit] at this
+  | atom _ _ hl =>
+    cases hl with
+    | alnum hne hl =>
+      cases s with
+      | nil => exact absurd rfl hne
+      | cons d l' =>
+        simp at hc; subst hc
+        have := hl d (List.mem_cons_self ..)
+        cases hw : isWs d with
+        | false => rfl
+        | true =>
+          simp [isWs] at hw
+          rcases hw with ((rfl | rfl) | rfl) | rfl <;> simp [isAlnum, Char.isAlphanum, Char.isAlpha, Char.isUpper, Char.isLower, Char.isDigit] at this
+    | quoted _ => simp at hc; subst hc; decide
   | _ => simp at hc; subst hc; decide
 
 theorem commaP_spec (w1 w2 r : List Char) (h1 : AllWs w1) (h2 : AllWs w2)
@@ -210,6 +236,47 @@ theorem negP_label_none (rec : Prs Fml) (l r : List Char) (hl : AllAlnum l) (hr 
   unfold negP
   exact kwParen_none ['n','e','g'] l r (allAlnum_lit _ (by decide)) hl hr _
 
+theorem takeUntilQ_spec : ∀ (l r : List Char), '"' ∉ l → takeUntilQ (l ++ '"' :: r) = some (l, '"' :: r) := by
+  intro l
+  induction l with
+  | nil => intro r _; simp [takeUntilQ]
+  | cons c l ih =>
+    intro r h
+    have hc : c ≠ '"' := fun e => h (e ▸ List.mem_cons_self ..)
+    have hl : '"' ∉ l := fun e => h (List.mem_cons_of_mem _ e)
+    simp [takeUntilQ, hc, ih r hl]
+
+/-- a quoted label is read back exactly, whatever follows -/
+theorem quotedP_ok (l r : List Char) (h : '"' ∉ l) : quotedP (['"'] ++ l ++ ['"'] ++ r) = some (l, r) := by
+  have e : ['"'] ++ l ++ ['"'] ++ r = ['"'] ++ (l ++ '"' :: r) := by simp
+  rw [e]
+  unfold quotedP
+  rw [tagL_append]; simp only [Option.bind]
+  rw [takeUntilQ_spec l r h]
+  simp [tagL]
+
+theorem alnum_not_quote {c : Char} (h : isAlnum c = true) : c ≠ '"' := by
+  intro e; subst e; simp [isAlnum, Char.isAlphanum, Char.isAlpha, Char.isUpper, Char.isLower, Char.isDigit] at h
+
+theorem quotedP_alnum_none (l r : List Char) (hne : l ≠ []) (hl : AllAlnum l) : quotedP (l ++ r) = none := by
+  cases l with
+  | nil => exact absurd rfl hne
+  | cons d l' =>
+    have := alnum_not_quote (hl d (List.mem_cons_self ..))
+    have hd : ¬ ('"' = d) := fun e => this e.symm
+    simp [quotedP, tagL, hd]
+
+/-- a label in either spelling, followed by a good rest, is read back exactly -/
+theorem atomic_ok (l s r : List Char) (h : DerL l s) (hr : GoodRest r) : atomic (s ++ r) = some (l, r) := by
+  cases h with
+  | alnum hne hl =>
+    unfold atomic
+    rw [orElse_none_left _ _ _ (quotedP_alnum_none l r hne hl)]
+    exact alnum1_label l r hne hl hr
+  | quoted hq =>
+    unfold atomic
+    exact orElse_some_left _ _ _ _ (quotedP_ok l r hq)
+
 /-- C08, formula level: every text of the documented formula syntax — any blanks around
 commas, alphanumeric labels including keyword-like ones — followed by a good rest is parsed
 back to exactly the formula that was written, and the rest is left over. -/
@@ -227,27 +294,40 @@ theorem formula_complete : ∀ (f : Fml) (s : List Char), DerF f s → ∀ (fuel
     cases fuel with
     | zero => omega
     | succ k => simp [formulaF, orElse, constantP, constP, tagL]
-  | atom l hne hl =>
+  | atom l s hl =>
     intro fuel r hf hr
     cases fuel with
     | zero => omega
     | succ k =>
       unfold formulaF
-      have c1 : constantP (l ++ r) = none := by
-        unfold constantP
-        rw [orElse_none_left _ _ _ (constP_label_none _ _ l r hl hr)]
-        exact constP_label_none _ _ l r hl hr
-      have c2 : binaryP (formulaF k) (l ++ r) = none := by
-        unfold binaryP
-        rw [orElse_none_left _ _ _ (pairP_label_none _ _ _ l r (allAlnum_lit _ (by decide)) hl hr),
-            orElse_none_left _ _ _ (pairP_label_none _ _ _ l r (allAlnum_lit _ (by decide)) hl hr),
-            orElse_none_left _ _ _ (pairP_label_none _ _ _ l r (allAlnum_lit _ (by decide)) hl hr),
-            orElse_none_left _ _ _ (pairP_label_none _ _ _ l r (allAlnum_lit _ (by decide)) hl hr)]
-        exact pairP_label_none _ _ _ l r (allAlnum_lit _ (by decide)) hl hr
-      rw [orElse_none_left _ _ _ c1, orElse_none_left _ _ _ c2,
-          orElse_none_left _ _ _ (negP_label_none _ l r hl hr)]
-      unfold atomP
-      rw [alnum1_label l r hne hl hr]; rfl
+      cases hl with
+      | alnum hne hl =>
+        have c1 : constantP (l ++ r) = none := by
+          unfold constantP
+          rw [orElse_none_left _ _ _ (constP_label_none _ _ l r hl hr)]
+          exact constP_label_none _ _ l r hl hr
+        have c2 : binaryP (formulaF k) (l ++ r) = none := by
+          unfold binaryP
+          rw [orElse_none_left _ _ _ (pairP_label_none _ _ _ l r (allAlnum_lit _ (by decide)) hl hr),
+              orElse_none_left _ _ _ (pairP_label_none _ _ _ l r (allAlnum_lit _ (by decide)) hl hr),
+              orElse_none_left _ _ _ (pairP_label_none _ _ _ l r (allAlnum_lit _ (by decide)) hl hr),
+              orElse_none_left _ _ _ (pairP_label_none _ _ _ l r (allAlnum_lit _ (by decide)) hl hr)]
+          exact pairP_label_none _ _ _ l r (allAlnum_lit _ (by decide)) hl hr
+        rw [orElse_none_left _ _ _ c1, orElse_none_left _ _ _ c2,
+            orElse_none_left _ _ _ (negP_label_none _ l r hl hr)]
+        unfold atomP
+        rw [atomic_ok l l r (DerL.alnum l hne hl) hr]; rfl
+      | quoted hq =>
+        have hshape : ['"'] ++ l ++ ['"'] ++ r = '"' :: (l ++ '"' :: r) := by simp
+        have c1 : constantP (['"'] ++ l ++ ['"'] ++ r) = none := by
+          rw [hshape]; simp [constantP, constP, orElse, tagL]
+        have c2 : binaryP (formulaF k) (['"'] ++ l ++ ['"'] ++ r) = none := by
+          rw [hshape]; simp [binaryP, pairP, orElse, tagL]
+        have c3 : negP (formulaF k) (['"'] ++ l ++ ['"'] ++ r) = none := by
+          rw [hshape]; simp [negP, tagL]
+        rw [orElse_none_left _ _ _ c1, orElse_none_left _ _ _ c2, orElse_none_left _ _ _ c3]
+        unfold atomP
+        rw [atomic_ok l _ r (DerL.quoted l hq) hr]; rfl
   | not f s _ ih =>
     intro fuel r hf hr
     cases fuel with
